@@ -1017,7 +1017,10 @@ fn parse_files0_args(config: &mut Config) -> Result<(), Box<dyn Error>> {
         .collect();
     // empty starting point checker
     if string_segments.iter().any(|s| s.is_empty()) {
-        eprintln!("find: invalid zero-length file name");
+        {
+            use std::io::Write;
+            writeln!(std::io::stderr(), "find: invalid zero-length file name").ok();
+        }
         // remove the empty ones so as to avoid file not found error
         string_segments.retain(|s| !s.is_empty());
     }
